@@ -60,6 +60,14 @@ CLAIMED = {
              note="Trusted: h5py item assignment / resize / shape semantics as contracts over the abstract store; numpy arrays opaque; "
                   "create_data_array's shape/dtype resolution and the compression chain are not under contract yet; a conversion "
                   "failure inside h5py after the resize (finding F4, property C12) is outside the append contract.", ref="7 C01"),
+ "C13": dict(text="Partial: deductive proof that every public find_* method hands the breadth-first search exactly the start node, "
+                  "the caller's filter and the depth limit as given (None = unlimited, 0 = 0), calls it once and returns its result "
+                  "unchanged, and that a newly constructed Section handle carries no cached parent (the parent is a fact of the tree, "
+                  "not of the access path). The search itself (breadth-first order, completeness within the limit, filter) is decided "
+                  "only by a labelled BOUNDED stand-in: the real function on all ordered forests with <= 5 (thorough: 6) nodes.",
+             note="The two _find_* functions enter the proofs as assumed summaries; their behaviour is checked bounded, never counted as "
+                  "proved. Section.parent / Source.parent_source / referring_* are not under contract yet (store-level identity "
+                  "reasoning).", ref="7 C13"),
 }
 NA_REASON = "check not built yet in this round (design in DESIGN.md section 7); will be claimed once its contracts discharge"
 checks, na = [], []
